@@ -582,7 +582,20 @@ def ctor_nibbles(E, cls, nibbles):
     raise Unsupported("Nibbles(%r)" % (v,))
 
 
-CLASS_CTORS = {"trie.typing:Nibbles": ctor_nibbles}
+def ctor_node_type(E, cls, v):
+    """trie.typing.NodeType(x): an IntEnum member, modelled as the integer it equals; ValueError outside 0..3"""
+    if not ops.is_intlike(v) or isinstance(v, (bool, SBool)):
+        raise Unsupported("NodeType(%r)" % (v,))
+    if isinstance(v, int):
+        if v not in (0, 1, 2, 3):
+            E.raise_exc(ValueError, "not a valid NodeType")
+        return v
+    if not E.decide(mk_bool(z3.And(v.t >= 0, v.t <= 3))):
+        E.raise_exc(ValueError, "not a valid NodeType")
+    return v
+
+
+CLASS_CTORS = {"trie.typing:Nibbles": ctor_nibbles, "trie.typing:NodeType": ctor_node_type}
 
 
 # ---------------------------------------------------------------------------------------------------
